@@ -211,3 +211,20 @@ PROPS["C18"] = dict(
     level_text="seeded exploration of report histories (reorder across and within jobs, duplication, delay past the shutdown notice) interleaved with frontend queries; every response of the real gateway is compared with a sequential model (per job: progress of the report with the greatest timestamp seen so far; per (job, dataset): last uploaded bytes; unknown -> error) replayed in the gateway's own receive order; job ids pairwise distinct under forced uuid collisions",
     level_note=_LN,
 )
+
+PROPS["C10"] = dict(
+    level="exploration", budget=dict(quick=60, thorough=900),
+    groups=[
+        dict(name="lower-sorted", harness="ctl", weight=3, runs=dict(quick=12000, thorough=250000), opts=dict(graph=True, graph_opts=dict(sorted_only=True, dup_arg_pct=0))),
+        dict(name="lower-cluster", harness="cluster", weight=3, runs=dict(quick=800, thorough=20000), opts=dict(graph=True, graph_opts=dict(sorted_only=True, dup_arg_pct=0, nmax=5))),
+        dict(name="lower-ctl", harness="ctl", weight=2, runs=dict(quick=8000, thorough=150000), opts=dict(graph=True)),
+    ],
+    rule="run = (graph built by hand with graph.Node or through the fluent API: any arity, argument order, static and keyword arguments, multi-output nodes with 1-14 outputs incl. unsorted declared names, outputs consumed by several nodes or none, occasional yield-count mismatch; lowered with graph2job; all datasets requested; cluster shape; schedule); "
+         "distinct = distinct Bridge command/event log digest; non-trivial = the graph has a multi-output node or at least one edge",
+    real=REAL_CTL + ["cluster group: " + ", ".join(REAL_CLUSTER), "cascade.low.into.graph2job / node2task", "earthkit.workflows.graph.{Node,Graph,serialise}", "earthkit.workflows.fluent.{from_source,map,reduce,Payload,Node,Action.graph}"],
+    stub=STUB_CTL,
+    assumptions=["the property quantifies over programs, not schedules; the schedule dimension is incidental here and is said so", "graph-level reference: payload (func, args, kwargs), argument strings naming an input are replaced by the parent's value, the k-th yielded value belongs to the k-th declared output",
+                 "a yield-count mismatch must surface as a task failure (the run fails); it may never deliver a value"],
+    level_text="seeded generation of graphs (hand-built and fluent) lowered by the repository's graph2job and executed through the real controller, scheduler and runner.run against the model cluster; structural oracle (one task per node, one edge per input, edge source = parent and output name, sink position = position of the input's name) and semantic oracle (every dataset equals direct evaluation of the graph); count mismatch must fail the run",
+    level_note=_LN,
+)
